@@ -53,8 +53,10 @@ VerdictOk(P, T, Es) ==
     /\ "C24" \in Verdict => (FrameOrderedOf(P, Es) /\ FrameEdgesJustifiedOf(P, Es))
 
 TDone == /\ IsEvent("done")
-         /\ LET es == ToEdges(Rec[l].edges) IN
-            /\ VerdictOk(prog, term, es)
+         /\ LET es == TLCEval(ToEdges(Rec[l].edges)) IN
+            \* (compared with TRUE so that TLC evaluates the predicate as a value; as a bare conjunct of the action its
+            \* disjunctions would be explored as alternative successor states)
+            /\ VerdictOk(prog, term, es) = TRUE
             /\ IF Strict
                THEN Finish /\ edges' = es
                ELSE /\ phase = "run" /\ phase' = "done" /\ edges' = es
